@@ -398,3 +398,36 @@ V("C12", "select-negated-filter", "mdtraj/core/topology.py", "indices = np.array
 V("C12", "select-expression-other-string", "mdtraj/core/topology.py", "        condition = parse_selection(selection_string).source", "        condition = parse_selection(selection_string.lower()).source", "C12-R5")
 V("C12", "twin-aliases-reordered", S, '(("water", "waters", "is_water"), _chain("residue", "is_water")),', '(("is_water", "water", "waters"), _chain("residue", "is_water")),', None)
 V("C12", "twin-comparisons-reordered", S, '        (["<", "lt"], ast.Lt()),\n        (["==", "eq"], ast.Eq()),', '        (["eq", "=="], ast.Eq()),\n        (["lt", "<"], ast.Lt()),', None)
+
+# ---------------------------------------------------------------- C17
+U = "mdtraj/utils/unitcell.py"
+V("C17", "alpha-beta-operands-exchanged", U, 'alpha = np.arccos(np.einsum("...i, ...i", b, c) / (b_length * c_length), casting=\'safe\')\n    beta = np.arccos(np.einsum("...i, ...i", c, a) / (c_length * a_length), casting=\'safe\')',
+  'alpha = np.arccos(np.einsum("...i, ...i", c, a) / (c_length * a_length), casting=\'safe\')\n    beta = np.arccos(np.einsum("...i, ...i", b, c) / (b_length * c_length), casting=\'safe\')', "C17-R1")
+V("C17", "cx-uses-alpha", U, "    cx = c_length * np.cos(beta)", "    cx = c_length * np.cos(alpha)", "C17-R1")
+V("C17", "b-uses-beta", U, "    b = np.array([b_length * np.cos(gamma), b_length * np.sin(gamma), np.zeros_like(b_length)])",
+  "    b = np.array([b_length * np.cos(beta), b_length * np.sin(beta), np.zeros_like(b_length)])", "C17-R1")
+V("C17", "tilt-xz-uses-gamma", U, "    xz = c_length * np.cos(np.deg2rad(beta))", "    xz = c_length * np.cos(np.deg2rad(gamma))", "C17-R1")
+V("C17", "b-not-in-xy-plane", U, "np.array([b_length * np.cos(gamma), b_length * np.sin(gamma), np.zeros_like(b_length)])",
+  "np.array([b_length * np.cos(gamma), np.zeros_like(b_length), b_length * np.sin(gamma)])", "C17-R2")
+V("C17", "getter-angles-column-order", "mdtraj/core/trajectory.py", "            self._unitcell_angles[:, 0],  # alpha\n            self._unitcell_angles[:, 1],  # beta",
+  "            self._unitcell_angles[:, 1],  # alpha\n            self._unitcell_angles[:, 0],  # beta", "C17-R3")
+V("C17", "setter-stacks-angles-wrong", "mdtraj/core/trajectory.py", "        self._unitcell_angles = np.vstack((alpha, beta, gamma)).T", "        self._unitcell_angles = np.vstack((gamma, beta, alpha)).T", "C17-R3")
+V("C17", "degrees-not-converted", U, "    gamma = gamma * np.pi / 180\n", "", "C17-R5")
+V("C17", "arccos-returned-in-radians", U, "    beta = beta * 180.0 / np.pi\n", "", "C17-R5")
+V("C17", "atom_slice-forwards-lengths-only", "mdtraj/core/trajectory.py", """            time=time,
+            unitcell_lengths=unitcell_lengths,
+            unitcell_angles=unitcell_angles,
+        )
+
+    def remove_solvent""", """            time=time,
+            unitcell_lengths=unitcell_lengths,
+        )
+
+    def remove_solvent""", "C17-R4")
+V("C17", "zero-box-clears-only-lengths", "mdtraj/core/trajectory.py", "            self._unitcell_lengths = None\n            self._unitcell_angles = None\n            return", "            self._unitcell_lengths = None\n            return", "C17-R4")
+V("C17", "lammps-writer-swaps-xz-yz-source", "mdtraj/formats/lammpstrj.py", "            xz = c * np.cos(beta)", "            xz = c * np.cos(alpha)", "C17-R1")
+V("C17", "lammps-reader-gamma-from-xz", "mdtraj/formats/lammpstrj.py", "            gamma = np.arccos(xy / b)", "            gamma = np.arccos(xz / b)", "C17-R1")
+V("C17", "volume-from-lengths-product", "mdtraj/core/trajectory.py", "            return np.array(list(map(np.linalg.det, self.unitcell_vectors)), dtype=np.float64)",
+  "            return np.prod(self.unitcell_lengths, axis=1).astype(np.float64)", "C17-R5")
+V("C17", "twin-sum-instead-of-einsum", U, 'alpha = np.arccos(np.einsum("...i, ...i", b, c) / (b_length * c_length), casting=\'safe\')', "alpha = np.arccos(np.sum(b * c, axis=-1) / (b_length * c_length))", None)
+V("C17", "twin-deg2rad", U, "    alpha = alpha * np.pi / 180\n", "    alpha = np.deg2rad(alpha)\n", None)
